@@ -41,7 +41,12 @@ REQUIRED_THEOREMS = [
     "handed_out_list_is_a_copy", "handed_out_labels_are_a_copy", "edit_detached", "edit_never_touches_memory",
     "no_list_edit_changes_world", "xrun_heap_is_run", "inv_xrun", "dataLive_xrun", "owners_xrun",
     "caller_list_kept", "edit_owned_changes_members",
+    # Props/C15b.lean (theorem-gap round): values of field/field arithmetic, of negation, of copied collections
+    "binop_field_values", "inplace_field_values", "negate_field_values", "copy_collection_reads_members",
+    "copy_collection_member_reads", "binop_collection_scalar_values", "binop_collection_values",
+    "negate_collection_values", "binop_into_second_collection_values",
 ]
+EXTRA_PROP_FILES = ["C15b"]
 # floors on what a quick run must have explored (run.py): in-place operations on list objects of the caller
 MIN_LEGS = {"list-edit": 400}
 RULE = ("random operation histories (5-40 operations: construction of scalar/vector/tensor fields, "
